@@ -174,6 +174,28 @@ def c_cdc_write_side(buffered, depth=8):
     h.functions = ["litex.soc.interconnect.stream.ClockDomainCrossing.__init__ (sink hand-over)", "litex.soc.interconnect.stream.AsyncFIFO.__init__", "litex.soc.interconnect.stream._FIFOWrapper.__init__"]
     return h
 
+def c_cdc_no_comb_path(buffered, depth=8):
+    """ClockDomainCrossing('a' -> 'b') with payload AND params: nothing the producer drives in this cycle is visible at the source in the same cycle, and nothing the
+    consumer drives is visible at the sink (no combinational path across the crossing: the delivered token comes out of the crossing's storage).  Two copies of
+    the combinational equations with the same register / memory state, the other side's inputs free in both."""
+    from contracts.streamlib import tok, ep_inputs, tok_sigs
+    desc = stream.EndpointDescription([("data", 8)], [("tag", 3), ("dest", 2)])
+    d = mk(stream.ClockDomainCrossing, desc, "a", "b", depth, buffered)
+    h = HwCheck(f"ClockDomainCrossing(a->b{',buffered' if buffered else ''},payload+param).no-comb-path", d, ep_inputs(d.sink, d.source), clock="a")
+    extra = [tok(h, d.source), h.v(d.source.valid), h.v(d.sink.ready)]
+    at = h._at(h._allvars(extra)); base = h.base()
+    same_state = [at(h.v(sg), 0) == at(h.v(sg), 1) for sg in h.ts.state]
+    out = []
+    for name, keep, outs in (("ens.source-independent-of-the-sink-inputs", [d.source.ready], [tok(h, d.source), h.v(d.source.valid)]),
+                             ("ens.sink-ready-independent-of-the-source-inputs", [d.sink.valid] + tok_sigs(d.sink), [h.v(d.sink.ready)])):
+        cs = [at(c, 0) for c in base] + [at(c, 1) for c in base] + same_state + [at(h.v(sg), 0) == at(h.v(sg), 1) for sg in keep]
+        st, m, be, t = h._solve(cs + [z3.Or(*[at(o, 0) != at(o, 1) for o in outs])])
+        out.append(res(name, "ensures", PROVED if st == "unsat" else (UNKNOWN if st == "unknown" else NOINPUT), t, be))
+    st, _, be, t = h._solve(base + [h.v(d.source.valid) == 1, h.v(d.source.tag) != 0])
+    out.append(res("cover.param-delivered", "cover", OK if st == "sat" else (UNKNOWN if st == "unknown" else VACUOUS), t, be))
+    return dict(results=out, functions=["litex.soc.interconnect.stream.ClockDomainCrossing.__init__ (payload + param)", "litex.soc.interconnect.stream._FIFOWrapper.__init__", "litex.soc.interconnect.stream.AsyncFIFO.__init__"],
+                samples=[dict(design="ClockDomainCrossing(payload+param)", clause="two-copy non-interference over the combinational equations")])
+
 def c_axil_cdc():
     from litex.soc.interconnect.axi import AXILiteInterface, AXILiteClockDomainCrossing
     m = AXILiteInterface(data_width=32, address_width=16); s_ = AXILiteInterface(data_width=32, address_width=16)
@@ -196,7 +218,8 @@ def cases(tier):
           VCase("ClockDomainCrossing(a->b)", c_cdc_structure, False), VCase("ClockDomainCrossing(a->b,buffered)", c_cdc_structure, False, True),
           VCase("ClockDomainCrossing(a->b,common_rst)", c_cdc_structure, True), VCase("ClockDomainCrossing.common_rst.wiring", c_common_rst_wiring),
           VCase("ClockDomainCrossing(sys->sys)", c_same_domain, False), VCase("ClockDomainCrossing(sys->sys,buffered)", c_same_domain, True),
-          VCase("AXILiteClockDomainCrossing", c_axil_cdc), VCase("ClockDomainCrossing(a->b).hand-over", c_cdc_write_side, False), VCase("ClockDomainCrossing(a->b,buffered).hand-over", c_cdc_write_side, True)]
+          VCase("AXILiteClockDomainCrossing", c_axil_cdc), VCase("ClockDomainCrossing(a->b).hand-over", c_cdc_write_side, False), VCase("ClockDomainCrossing(a->b,buffered).hand-over", c_cdc_write_side, True),
+          VCase("ClockDomainCrossing(a->b,payload+param).no-comb-path", c_cdc_no_comb_path, False), VCase("ClockDomainCrossing(a->b,buffered,payload+param).no-comb-path", c_cdc_no_comb_path, True)]
     if tier == "thorough":
         cs += [VCase("BusSynchronizer(W=3,timeout=24,R=3)", c_bussync, 3, 24, 3, 40, timeout=3000)]
     return cs
